@@ -130,6 +130,33 @@ class given:
         return False
 
 
+def _ctoption_flag(x, prog, depth):
+    """is_some of a CtOption-valued term, by subtle's algebra: new(v, f) -> f; and_then(x, g) -> is_some(x) & is_some(g(..));
+    map(x, g) -> is_some(x); or_else(x, g) -> is_some(x) | is_some(g()).  None when the term is opaque."""
+    if depth <= 0 or x.op != "call":
+        return None
+    n = _name(x)
+    a = x.a[1]
+    if n == "CtOption::<T>::new" and len(a) == 2:
+        return _formula(a[1], prog, depth)
+    if n in ("CtOption::<T>::map",) and len(a) == 2:
+        inner = _ctoption_flag(_unref(a[0]), prog, depth - 1)
+        return inner if inner is not None else ("atom", "is_some", _unref(a[0]))
+    if n in ("CtOption::<T>::and_then", "CtOption::<T>::or_else") and len(a) == 2:
+        left = _ctoption_flag(_unref(a[0]), prog, depth - 1)
+        left = left if left is not None else ("atom", "is_some", _unref(a[0]))
+        body = apply_closure(prog, a[1], [T("call", ("CtOption::<T>::unwrap", ()), (_unref(a[0]),))] if n.endswith("and_then") else [])
+        if body is None:
+            return None
+        from .terms import subst as _subst
+
+        body = _unref(_subst(body, {}))
+        right = _ctoption_flag(body, prog, depth - 1)
+        right = right if right is not None else ("atom", "is_some", body)
+        return f_and([left, right]) if n.endswith("and_then") else f_or([left, right])
+    return None
+
+
 def formula(t, prog=None, depth=3):
     """Boolean reading of a term of type bool / Choice / u8-of-Choice."""
     t = strip_sites(t)
@@ -210,9 +237,11 @@ def _formula(t, prog, depth):
         if n in ("Field::is_zero", "IsZero::is_zero", "Share::is_zero") and len(args) == 1:
             return ("atom", "is_zero", _unref(args[0]))
         if n in ("CtOption::<T>::is_some", "Option::<T>::is_some", "Result::<T, E>::is_ok") and len(args) == 1:
-            return ("atom", "is_some", _unref(args[0]))
+            cf = _ctoption_flag(_unref(args[0]), prog, depth) if n.startswith("CtOption") else None
+            return cf if cf is not None else ("atom", "is_some", _unref(args[0]))
         if n in ("CtOption::<T>::is_none", "Option::<T>::is_none", "Result::<T, E>::is_err") and len(args) == 1:
-            return f_not(("atom", "is_some", _unref(args[0])))
+            cf = _ctoption_flag(_unref(args[0]), prog, depth) if n.startswith("CtOption") else None
+            return f_not(cf if cf is not None else ("atom", "is_some", _unref(args[0])))
         # local boolean helper: inline its returned formula
         if prog is not None and depth > 0 and n in prog.fns and n.split("::")[-1] not in SEMANTIC_ATOMS:
             from .sym import evaluate
